@@ -98,8 +98,16 @@ type dbRow struct {
 	srel    int
 }
 
+// one row of keto_uuid_mappings (primary key id)
+type dbMapRow struct {
+	present bool
+	id      uuid.UUID
+	str     string
+}
+
 type dbState struct {
 	rows       []dbRow
+	maps       []dbMapRow
 	ops        int  // terminal operations executed
 	failAt     int  // terminal operation that fails (0 = none)
 	failed     int
@@ -613,6 +621,7 @@ func dbTransaction(ctx context.Context, c *pop.Connection, f func(context.Contex
 		return f(ctx, tc)
 	}
 	snapshot := dbCopyRows(db.rows)
+	mapSnapshot := append([]dbMapRow(nil), db.maps...)
 	tx := &pop.Connection{}
 	db.txOpen++
 	db.txConn = tx
@@ -621,6 +630,7 @@ func dbTransaction(ctx context.Context, c *pop.Connection, f func(context.Contex
 	db.txConn = nil
 	if err != nil {
 		db.rows = snapshot // rollback
+		db.maps = mapSnapshot
 	}
 	return err
 }
@@ -698,6 +708,9 @@ func dbQueryAll(q *pop.Query, models interface{}) error {
 	if dq.raw != nil {
 		return db.rawSelect(dq, models)
 	}
+	if ms, ok := models.(*[]UUIDMapping); ok {
+		return db.selectMappings(dq, ms)
+	}
 	if dq.order != "" && dq.order != "shard_id" {
 		panic("verif db model: unsupported ORDER BY " + dq.order)
 	}
@@ -711,6 +724,58 @@ func dbQueryAll(q *pop.Query, models interface{}) error {
 			*out = append(*out, db.materialise(i))
 			n++
 		}
+	}
+	return nil
+}
+
+// selectMappings: SELECT * FROM keto_uuid_mappings WHERE id in (?). Rows come
+// back in table order, which is unrelated to the order of the ids asked for.
+func (s *dbState) selectMappings(dq *dbQuery, out *[]UUIDMapping) error {
+	if len(dq.wheres) != 1 || dq.wheres[0].stmt != "id in (?)" || len(dq.wheres[0].args) != 1 || dq.hasLim || dq.order != "" {
+		panic("verif db model: unsupported query on keto_uuid_mappings: " + dbDescribe(dq))
+	}
+	ids := dq.wheres[0].args[0].([]uuid.UUID)
+	if len(ids) == 0 {
+		// pop renders an empty slice as "in (NULL)"-like text that no row satisfies
+		return nil
+	}
+	for i := range s.maps {
+		in := false
+		for _, id := range ids {
+			if id == s.maps[i].id {
+				in = true
+			}
+		}
+		if in && verifConcretizeBool(s.maps[i].present) {
+			*out = append(*out, UUIDMapping{ID: s.maps[i].id, StringRepresentation: s.maps[i].str})
+		}
+	}
+	return nil
+}
+
+// insertMappings: INSERT INTO keto_uuid_mappings (id, string_representation)
+// VALUES (?,?),... ON CONFLICT (id) DO NOTHING  /  INSERT IGNORE (mysql).
+func (s *dbState) insertMappings(stmt string, args []interface{}) error {
+	ignore := strings.Contains(stmt, "ON CONFLICT (id) DO NOTHING") || strings.HasPrefix(stmt, "INSERT IGNORE")
+	if len(args)%2 != 0 || strings.Count(stmt, "(?,?)")*2 != len(args) {
+		panic("verif db model: keto_uuid_mappings INSERT whose placeholders and arguments do not match")
+	}
+	for g := 0; g < len(args); g += 2 {
+		id := args[g].(uuid.UUID)
+		str := args[g+1].(string)
+		dup := false
+		for i := range s.maps {
+			if s.maps[i].id == id && verifConcretizeBool(s.maps[i].present) {
+				dup = true
+			}
+		}
+		if dup {
+			if !ignore {
+				return errors.New("verif db model: UNIQUE constraint failed: keto_uuid_mappings.id")
+			}
+			continue
+		}
+		s.maps = append(s.maps, dbMapRow{present: true, id: id, str: str})
 	}
 	return nil
 }
@@ -825,6 +890,9 @@ func dbQueryExec(q *pop.Query) error {
 		return err
 	}
 	toks := sqlLex(stmt)
+	if strings.Contains(stmt, "INTO keto_uuid_mappings") {
+		return db.insertMappings(stmt, dq.raw.args)
+	}
 	switch {
 	case strings.EqualFold(toks[0].text, "INSERT"):
 		// INSERT INTO t (c1, ..., c10) VALUES (?, ...), ...
